@@ -27,6 +27,7 @@ class GenOpts(object):
         self.nonfixed_bytes = True    # bytes<>, <N>, <...>, <@n> (only bytes[N] when False)
         self.allow_unset = True
         self.allow_const_refs = True
+        self.const_ref_bias = 6      # 1/n of sizes / discriminators refer to a constant when one fits
         self.const_exprs = False      # constants / enumerators given as expressions over earlier names
         self.min_decls = 1
         self.max_decls = 6
@@ -92,7 +93,7 @@ class _Builder(object):
         else:
             n = [16, 255, 256, 300, 7, 8][d - 34]
         expr = None
-        if self.o.allow_const_refs and self.small_consts and self.draw(st.integers(0, 5)) == 0:
+        if self.o.allow_const_refs and self.small_consts and self.draw(st.integers(0, self.o.const_ref_bias - 1)) == 0:
             name, n = self.draw(st.sampled_from(self.small_consts))
             expr = name
         return n, expr
@@ -188,7 +189,7 @@ class _Builder(object):
         arms = []
         for d, an in zip(discs, names):
             expr = None
-            if self.o.allow_const_refs and self.draw(st.integers(0, 4)) == 0:
+            if self.o.allow_const_refs and self.draw(st.integers(0, max(self.o.const_ref_bias - 2, 1))) == 0:
                 cands = [c for c in self.disc_consts if c[1] == d]
                 if cands:
                     expr = cands[0][0]
